@@ -275,8 +275,23 @@ def obligations(tier):
             st = cirq.DensityMatrixSimulationState(initial_state=0, qubits=q, prng=prng, dtype=np.complex128)
             st._state._density_matrix = wrap(rho_t) if cx.mode != 'concrete' else rho_t.astype(complex)
         op = cirq.MeasurementGate(len(mqs), key='m', invert_mask=inv, confusion_map=conf).on(*mqs)
+        # the measurement may reach the simulator through a key rewrite (sub-circuit key maps, repetition ids, key
+        # paths): every rewrite must keep the qubits, the invert mask and the confusion map of the measurement
+        rk = cx.choose('rekey', 6)
+        key_out = 'm'
+        if rk == 1:
+            op, key_out = cirq.with_measurement_key_mapping(op, {'m': 'n'}), 'n'
+        elif rk == 2:
+            op, key_out = cirq.with_key_path_prefix(op, ('p',)), 'p:m'
+        elif rk == 3:
+            op, key_out = cirq.with_rescoped_keys(op, ('r', '0')), 'r:0:m'
+        elif rk == 4:
+            op, key_out = op.gate.with_key('n2').on(*mqs), 'n2'
+        elif rk == 5:
+            sub = cirq.CircuitOperation(cirq.FrozenCircuit(op), measurement_key_map={'m': 'k'})
+            op, key_out = list(sub.mapped_circuit().all_operations())[0], 'k'
         cirq.act_on(op, st)
-        rec = st.log_of_measurement_results['m']
+        rec = st.log_of_measurement_results[key_out]
         indices = [q.index(x) for x in mqs]
         outcomes = list(itertools.product((0, 1), repeat=len(indices)))
         pvec, k = prng.log[0]
@@ -303,7 +318,7 @@ def obligations(tier):
         exp_rec = [b ^ int(m) for b, m in zip(conf_bits, inv)]
         cx.check([int(b) for b in rec] == exp_rec, label='act_on(measure): recorded bits = confused outcome xor invert mask')
 
-    obs.append(Obligation('act_on_measure', act_body, twin=lambda cx: act_body(cx, wrong=True), expected=(ZeroDivisionError,), opts={'weight': 8}, desc='cirq.act_on(MeasurementGate(invert_mask, confusion_map)) on state-vector and density-matrix simulation states with arbitrary symbolic amplitudes and symbolic confusion probabilities: Born probabilities, confusion row, recorded bits'))
+    obs.append(Obligation('act_on_measure', act_body, twin=lambda cx: act_body(cx, wrong=True), expected=(ZeroDivisionError,), opts={'weight': 8}, desc='cirq.act_on(MeasurementGate(invert_mask, confusion_map), also after each public key rewrite: with_measurement_key_mapping, with_key_path_prefix, with_rescoped_keys, with_key, CircuitOperation key map) on state-vector and density-matrix simulation states with arbitrary symbolic amplitudes and symbolic confusion probabilities: Born probabilities, confusion row, recorded bits'))
 
     # ---- C2: Pauli-observable measurement: probabilities, record and post-measurement state ---------------------
     PSTR = [('XX', [1, 1]), ('ZZ', [3, 3]), ('XY', [1, 2]), ('YZ', [2, 3]), ('ZX', [3, 1]), ('X', [1]), ('Y', [2]), ('-XZ', [1, 3]), ('-Y', [2])]
